@@ -27,7 +27,7 @@ RULES = {
 }
 ASSUMPTIONS = [
     "no symbolic links (the statement says 'lexically'); POSIX path semantics",
-    "non-canonical URLs (dot segments, doubled slashes, trailing slash on a file) may be served per the safety rule or answered not-found / "
+    "non-canonical URLs (dot segments, doubled slashes) may be served per the safety rule or answered not-found / "
     "(Pages, directory) redirected; when both d/ and d.html exist /d may redirect or serve d.html; a directory without index page may redirect or 404",
 ]
 
@@ -230,7 +230,10 @@ def oracle(case) -> Result:
     if segs is not None and is_canonical(path):
         trailing = path.endswith("/") and path != "/"
         if kind == "files" and trailing:
-            pass  # trailing slash on a Files URL: non-canonical, rules 1 and 2 only
+            # a URL ending in '/' is no regular file's own path ("every other path yields not-found"; the
+            # statement itself tells '/d' and '/d/' apart): the file app has nothing to serve there
+            if status != 404:
+                r.fail("C07:%s:files:trailing-slash-served" % side, f"{ctx}: URL with trailing slash, lexical target {target!r}: status {status} body {run.body[:40]!r}")
         elif kind == "files" or not (trailing or target == ""):
             if target in inside and not trailing:
                 if status != 200 or run.body != inside[target]:
@@ -262,7 +265,10 @@ def oracle(case) -> Result:
             elif target in dirs or target == "":
                 if status not in (404, 301, 302, 303, 307, 308):
                     r.fail(f"C07:{side}:pages:dir-without-index", f"{ctx}: status {status}")
-            # trailing slash on a file or a missing name: non-canonical, rules 1/2 only
+            elif target in inside and status != 404:
+                # '/a.txt/' names the index page of a directory 'a.txt', which does not exist
+                r.fail(f"C07:{side}:pages:trailing-slash-on-file-served", f"{ctx}: {target!r} is a regular file, not a directory: status {status} body {run.body[:40]!r}")
+            # trailing slash on a missing name: rules 1/2 only
     _labels(r, case, status)
     r.key = (core.canon(case["layout"])[:40], kind, side, mode, mounted, path)
     return r
